@@ -448,3 +448,50 @@ func vc01_if() {
 
 func vh_c01_convert_q() { vc01_convert() }
 func vh_c01_if_q()      { vc01_if() }
+
+// ---- integer to floating-point conversions ----
+
+func vconvToFloat[S vinteger](to32 bool, v S) float64 {
+	if to32 {
+		return float64(float32(v))
+	}
+	return float64(v)
+}
+
+func vc01_convert_float() {
+	src := vintKinds[vsym_choice(len(vintKinds))]
+	to32 := vsym_bool()
+	x := vcanon(src, vsym_i64())
+	typ := reflect.TypeOf(float64(0))
+	if to32 {
+		typ = reflect.TypeOf(float32(0))
+	}
+	fb := vfb()
+	fb.emitConvert(1, typ, 2, src)
+	vassert(len(fb.fn.Body) == 1, "one-instruction-emitted")
+	_, fl, err := runtime.VStepF(fb.fn.Body, []int64{0, x, 0}, []float64{0, 0, 0, 0}, fb.fn.Types)
+	vassert(err == nil, "no-error")
+	var want float64
+	switch src {
+	case reflect.Int8:
+		want = vconvToFloat(to32, int8(x))
+	case reflect.Int16:
+		want = vconvToFloat(to32, int16(x))
+	case reflect.Int32:
+		want = vconvToFloat(to32, int32(x))
+	case reflect.Int, reflect.Int64:
+		want = vconvToFloat(to32, x)
+	case reflect.Uint8:
+		want = vconvToFloat(to32, uint8(x))
+	case reflect.Uint16:
+		want = vconvToFloat(to32, uint16(x))
+	case reflect.Uint32:
+		want = vconvToFloat(to32, uint32(x))
+	default:
+		want = vconvToFloat(to32, uint64(x))
+	}
+	vassert(fl[2] == want, "conversion-equals-go-typed-conversion")
+	vreach("end")
+}
+
+func vh_c01_convert_float_q() { vc01_convert_float() }
